@@ -111,6 +111,11 @@ def templates(tier, mode):
     out.append(('cond', T('x ? y : z'), {'x': spec(['bool', 'num', 'none', 'str'], (0,), strshapes=[(1,)]), 'y': poor(), 'z': spec(['num', 'str', 'none'], (0,), strshapes=[(1,)])}))
     out.append(('list', T('[ x , y ]'), {'x': poor(), 'y': spec(['num', 'str'], (0, 1), strshapes=[(1,)])}))
     out.append(('map', T('{ x : y }'), {'x': spec(['num', 'str', 'bool'], (0,), strshapes=[(1,)]), 'y': poor()}))
+    # entries are evaluated key, value, key, value: an entry may depend on an assignment made by an earlier one, and the
+    # first failing entry decides the error
+    out.append(('map-order', T('{ a = x : a , a = y : a }'), {'x': spec(['num'], (0,)), 'y': spec(['num', 'bool'], (0,))}))
+    out.append(('map-order-err', T('{ 1 : 1 + x , y / 0 : 2 }'), {'x': spec(['num', 'str'], (0,), strshapes=[(1,)]), 'y': spec(['num', 'bool'], (0,))}))
+    out.append(('list-order', T('[ a = x , a , a = y , a ]'), {'x': spec(['num'], (0,)), 'y': spec(['num', 'bool'], (0,))}))
     # nested forms
     out.append(('nest1', T('x + y * z'), {'x': num, 'y': nummul, 'z': nummul}))
     out.append(('nest2', T('( x + y ) * z'), {'x': spec(['num'], (0, 1)), 'y': spec(['num'], (0, 1)), 'z': spec(['num'], (0, 1))}))
